@@ -170,6 +170,11 @@ def allowedSnapMutUses : List (String × String) := [
   ("fetch.handle", "call snapshot.setMessageFlags"),
   -- FETCH with \Seen side effect: adds \Seen in place and sends FLAGS in the same FETCH response
   ("Mailbox.Fetch", "inplace snapMsg.flags.AddToSelf"),
+  -- … and, when that \Seen could not be stored (index / connector write failed, the command answers NO), takes it back
+  -- in place and sends the FLAGS without it in a further FETCH response before the NO (gluon commit "fix: a body FETCH
+  -- whose \Seen could not be stored takes the flag back"; exercised on the real server by the error-path histories of
+  -- the wire-level oracle, harness/hfc_hist.go pattern FETCHBODY, corpus/C01/hfc-fetch-seen-failed-write.hist)
+  ("Mailbox.Fetch", "inplace snapMsg.flags.RemoveFromSelf"),
   -- construction / replacement of the whole snapshot (SELECT, EXAMINE, close)
   ("newSnapshot", "call snapMsgList.insert"),
   ("State.Select", "assign State.snap"),
@@ -185,7 +190,8 @@ def allowedSnapMutUses : List (String × String) := [
     mutate a snapshot (`insert`, `insertOutOfOrder`, `remove`, assignments to a message's
     `flags`/`toExpunge`, in-place `AddToSelf` on snapshot flags) are reached only from responder
     `handle` methods, from snapshot construction, and from `Mailbox.Fetch`'s `\Seen` update, which
-    sends the new FLAGS in the same FETCH response. -/
+    sends the new FLAGS in the same FETCH response (and, if the flag cannot be stored, removes it again and sends the
+    FLAGS once more before the tagged NO). -/
 theorem snapshot_mutators_known :
     ∀ s ∈ Facts.snapMutSites, (s.caller, s.what) ∈ allowedSnapMutUses := by
   decide
